@@ -163,6 +163,20 @@ def check_rules(ctx, f, lp, ps):
            "an assignmentRule yields exactly one ('assignment', {'equation': ...}, 'repeated') and no reaction", '; '.join(sorted(set(problems_a))[:2]))
     ctx.ob('R13.2-rule-translation', 'rateRule', not problems_r and seen_r > 0, where,
            'a rateRule yields exactly one reaction and no rule', '; '.join(sorted(set(problems_r))[:2]))
+    # rules are applied in list order: the imported list keeps the order of the document - every rule is appended, nothing is inserted,
+    # sorted or moved
+    order = []
+    for n_ in ast.walk(f):
+        if isinstance(n_, ast.Call) and isinstance(n_.func, ast.Attribute) and src(n_.func.value) == 'allrules' and \
+                n_.func.attr in ('insert', 'sort', 'reverse', 'pop', 'remove', 'extend', 'clear'):
+            order.append('`%s` (%s)' % (src(n_)[:60], ctx.loc('sbmlutil', n_)))
+        if isinstance(n_, (ast.Assign, ast.AugAssign)) and not (isinstance(n_, ast.Assign) and isinstance(n_.value, ast.List) and not n_.value.elts):
+            for t_ in (n_.targets if isinstance(n_, ast.Assign) else [n_.target]):
+                b_ = t_.value if isinstance(t_, ast.Subscript) else t_
+                if src(b_) == 'allrules':
+                    order.append('`%s` (%s)' % (util.stmt_key(n_)[:60], ctx.loc('sbmlutil', n_)))
+    ctx.ob('R13.2-rule-translation', 'document-order', not order, where,
+           'the rules are collected by appending, in the order of the document (bioscrape applies its rules in list order)', '; '.join(order[:3]))
     # shapes of what is appended: the statements of every path are evaluated with the element's variable and formula as named holes
     from ..templates import StrExec, Hole, UNKNOWN
     miss = []
